@@ -3,6 +3,7 @@
 // usage: sds-harness <property> <tier> <seed> <outdir> <variant>
 mod common;
 mod c17;
+mod c05;
 
 use common::*;
 
@@ -24,6 +25,7 @@ fn main() {
     out.stat_n(if cfg!(target_feature = "bmi2") { "build.bmi2" } else { "build.portable" }, 1);
     match prop {
         "C17" => c17::run(&mut rng, &mut out, thorough, variant),
+        "C05" => c05::run(&mut rng, &mut out, thorough, variant),
         _ => {
             eprintln!("unknown property {}", prop);
             std::process::exit(2);
